@@ -3,7 +3,11 @@ package main
 import (
 	"encoding/json"
 	"fmt"
+	"github.com/Trendyol/go-dcp/config"
+	"github.com/Trendyol/go-dcp/models"
+	"github.com/bytedance/sonic"
 	"strings"
+	"time"
 
 	"github.com/Trendyol/go-dcp/wrapper"
 	"github.com/couchbase/gocbcore/v10"
@@ -79,6 +83,8 @@ func init() {
 				out = append(out, Instance{Scenario: "c05_savewindow", Params: mustJSON(SaveWinParams{Savers: 2, Faults: true, PreSave: true}), Bound: 3, Shards: 16})
 			}
 			out = append(out, seq...)
+			out = append(out, Instance{Scenario: "c05_finite_close", Params: mustJSON(struct{}{}), Bound: 0, Note: "the closing save when the client stops on its own (finite mode, every stream ended): what was acknowledged is stored when Start() has returned"})
+			out = append(out, Instance{Scenario: "c05_slowstore", Params: mustJSON(struct{}{}), Bound: 0, Note: "a custom backend whose Save() is slower than checkpoint.timeout while a second save is requested: the newer position wins"})
 			out = append(out, Instance{Scenario: "c05_manyvb", Params: mustJSON(struct{}{}), Bound: 0, Shards: 2, Note: "one save for 129 / 300 acknowledged vBuckets"})
 			return out
 		},
@@ -404,6 +410,136 @@ func init() {
 				}
 			}
 			vrt.SetOutcome(fmt.Sprint(nvb))
+		}}
+	}
+}
+
+// c05_finite_close: "the save performed during Close" when the client stops ON ITS OWN: finite mode, every
+// stream reaches its end, Start() returns through the stop channel (nobody called Close()). Everything
+// acknowledged since the last periodic save must be in the store when Start() has returned.
+func init() {
+	scenarios["c05_finite_close"] = func(raw json.RawMessage) *vrt.Scenario {
+		return &vrt.Scenario{Name: "c05_finite_close", FreeChoices: true, NoTimerAlt: true, MaxSteps: 2_000_000, Main: func() {
+			resetGlobals()
+			cp := []string{"auto", "manual"}[vrt.Choose(2, true, "checkpoint-type")]
+			preSave := false
+			o := DcpOpts{}
+			o.Vbs = 2
+			o.Mode = config.DcpModeFinite
+			o.CheckpointType = cp
+			o.AutoAck = true
+			o.CheckpointInterval = 10 * time.Second
+			c := NewCluster(&o.EnvOpts)
+			c.Append(0, marker(1, 3), mut(1, "a1"), mut(2, "a2"), mut(3, "a3"))
+			c.Append(1, marker(1, 2), mut(1, "b1"), mut(2, "b2"))
+			e := NewDcpEnv(c, o)
+			if e.Err != nil {
+				vrt.Failf("newDcp: %v", e.Err)
+				return
+			}
+			e.StartNoWait()
+			for i := 0; i < 20 && !e.Done; i++ {
+				vrt.Sleep(5 * time.Second)
+			}
+			vrt.Quiesce()
+			desc := fmt.Sprintf("finite mode, checkpoint=%s, periodic save in between=%v", cp, preSave)
+			if !e.Done {
+				vrt.Failf("%s: every stream reached its end but Start() did not return", desc)
+				return
+			}
+			if len(e.Cons.Events) != 5 {
+				vrt.Failf("%s: %d of 5 events delivered", desc, len(e.Cons.Events))
+			}
+			if cp == "auto" {
+				for vb, want := range map[uint16]uint64{0: 3, 1: 2} {
+					if got, _ := e.StoredSeq(vb); got != want {
+						vrt.Failf("%s: Start() has returned after all streams ended; vb%d acknowledged up to %d, stored %d", desc, vb, want, got)
+					}
+				}
+			}
+			vrt.SetOutcome(desc)
+		}}
+	}
+}
+
+// c05_slowstore: a custom metadata backend (the Metadata interface has no deadline contract) whose Save()
+// takes longer than checkpoint.timeout - the snapshot it was handed is applied when it finishes. While it is
+// busy another event is acknowledged and a second save is requested (Commit from the consumer / the periodic
+// tick). Whatever the library does about the slow call, the store must end with the newer position: a save
+// that is still in flight must not land on top of a later one.
+type slowMeta struct {
+	memMeta
+	slowCalls int           // the first n calls are slow
+	delay     time.Duration // how long a slow call takes
+	applied   []uint64      // vb0 positions in the order they reached the store
+}
+
+func (m *slowMeta) Save(state map[uint16]*models.CheckpointDocument, dirty map[uint16]bool, u string) error {
+	snap := map[uint16]*models.CheckpointDocument{}
+	for vb, d := range state {
+		if dirty[vb] {
+			b, _ := sonic.Marshal(d)
+			var cp models.CheckpointDocument
+			_ = sonic.Unmarshal(b, &cp)
+			snap[vb] = &cp
+		}
+	}
+	if m.slowCalls > 0 {
+		m.slowCalls--
+		vrt.Sleep(m.delay)
+	}
+	for vb, d := range snap {
+		m.docs[vb] = d
+		if vb == 0 {
+			m.applied = append(m.applied, d.Checkpoint.SeqNo)
+		}
+	}
+	m.saves++
+	return nil
+}
+
+func init() {
+	scenarios["c05_slowstore"] = func(raw json.RawMessage) *vrt.Scenario {
+		return &vrt.Scenario{Name: "c05_slowstore", FreeChoices: true, NoTimerAlt: true, MaxSteps: 400000, Main: func() {
+			resetGlobals()
+			factor := []int{1, 3}[vrt.Choose(2, true, "slow-call-takes-x-timeout")] // half / three times the time-out
+			gap := []time.Duration{time.Second, 6 * time.Second, 11 * time.Second}[vrt.Choose(3, true, "second-save-after")]
+			sm := &slowMeta{memMeta: memMeta{docs: map[uint16]*models.CheckpointDocument{}}, slowCalls: 1}
+			o := EnvOpts{Vbs: 1, CheckpointType: "manual", CustomMeta: sm, CheckpointTimeout: 5 * time.Second}
+			sm.delay = time.Duration(factor) * o.CheckpointTimeout / 2 * 1
+			if factor == 3 {
+				sm.delay = 3 * o.CheckpointTimeout
+			}
+			c := NewCluster(&o)
+			c.Append(0, marker(1, 2), mut(1, "a1"), mut(2, "a2"))
+			e := NewEnv(c, o)
+			e.Stream.Open()
+			c.WaitIdle()
+			if len(e.Cons.Events) != 2 {
+				vrt.Failf("harness: %d events", len(e.Cons.Events))
+				return
+			}
+			desc := fmt.Sprintf("slow Save() takes %v (checkpoint.timeout %v), second save %v later", sm.delay, o.CheckpointTimeout, gap)
+			vrt.SetOutcome(desc)
+			e.Cons.Events[0].Ctx.Ack()
+			vrt.GoNamed("saver1", func() { e.Stream.Save() })
+			vrt.Sleep(gap)
+			e.Cons.Events[1].Ctx.Ack()
+			vrt.GoNamed("saver2", func() { e.Stream.Save() })
+			vrt.Sleep(60 * time.Second)
+			vrt.Quiesce()
+			// one more save once everything is quiet: nothing may have been forgotten
+			e.Stream.Save()
+			vrt.Sleep(30 * time.Second)
+			vrt.Quiesce()
+			d := sm.docs[0]
+			if d == nil || d.Checkpoint == nil || d.Checkpoint.SeqNo != 2 {
+				got := uint64(0)
+				if d != nil && d.Checkpoint != nil {
+					got = d.Checkpoint.SeqNo
+				}
+				vrt.Failf("%s: seq 1 and 2 were acknowledged and three saves have completed; the store holds %d (order in which positions reached the store: %v)", desc, got, sm.applied)
+			}
 		}}
 	}
 }
